@@ -89,7 +89,14 @@ func VerifC06CommitEqualsAllocate() {
 // Realloc (that changed something), Release or Commit is refused.
 func VerifC06StaleOffer() {
 	w := verifLayout(verifPickLayout())
-	w.build(verifParam("prior", 1))
+	op := verifChoice("op", 4)
+	if op == 1 || op == 2 {
+		// re-allocation / release need an existing allocation to act on
+		w.build(verifParam("prior", 1))
+	} else {
+		// allocate / commit bring their own second request
+		w.build(verifParam("stalePrior", verifParam("prior", 1)))
+	}
 	r1 := w.verifRequest("offered", false)
 	offer, err := w.a.GetOffer(r1)
 	if err != nil {
@@ -97,7 +104,7 @@ func VerifC06StaleOffer() {
 	}
 	ids := verifAllIDs(w, "offered", "other")
 	before := w.snap(ids)
-	switch verifChoice("op", 4) {
+	switch op {
 	case 0:
 		r2 := w.verifRequest("other", false)
 		if _, _, err := w.a.Allocate(r2); err != nil {
